@@ -15,6 +15,7 @@ def handle (line : String) : String :=
   | "F" :: cfg :: m :: pt :: h :: _ => runF cfg m pt h
   | "E" :: h :: _ => runE h
   | "X" :: h :: _ => runX h
+  | "BIG" :: _ => "big"   -- oracle-only case (too large for the list-based model to execute): judged on the implementation side
   | "KYE" :: r => runKy ("KYE" :: r)
   | "KY" :: r => runKy ("KY" :: r)
   | "KYX" :: r => runKy ("KYX" :: r)
